@@ -186,7 +186,18 @@ class Flow:
             out = self.transfer_stmts(b, st)
             t = blk["term"]
             edges = []
-            if t["k"] == "switch":
+            el = self.edge_lits(b, t) if t["k"] == "switch" else None
+            if el is not None:
+                for tgt, lits in el:
+                    ns = set()
+                    for val in out:
+                        nv = val
+                        for lit, pol in lits:
+                            nv = nv.add(lit, pol) if nv is not None else None
+                        if nv is not None:
+                            ns.add(nv)
+                    edges.append((tgt, frozenset(ns)))
+            elif t["k"] == "switch":
                 cond = self.bool_cond(b, t)
                 if cond is not None:
                     lit, flip = cond
@@ -241,6 +252,10 @@ class Flow:
                 if old is None or new != old:
                     self.instate[tgt] = new
                     work.append(tgt)
+
+    def edge_lits(self, b, t):
+        """Optional per-edge literals for non-boolean switches (overridden by clients)."""
+        return None
 
     def transfer_stmts(self, b, st):
         m = self.m
